@@ -90,6 +90,10 @@ def templates():
         # the bound of a block is an expression, not a bare identifier (M10-C16): CPU loop header and CUDA guard must carry it whole
         ("t_expr_lim", [("block", "ii", "n/2", [("line", 0, None)]), ("block", "jj", "n-1", [("line", 1, None), ("line", 2, G)])]),
         ("t_expr_lim2", [("line", 0, None), ("block", "kk", "(n+1)/3", [("line", 3, None)]), ("block", "tid", "n", [("line", 1, None)])]),
+        # ... an expression whose operator binds less tightly than `<` (the bound must be taken as a whole)
+        ("t_cond_lim", [("block", "ii", "n>2?n-2:0", [("line", 0, None)]), ("block", "tid", "n", [("line", 1, None)])]),
+        # two blocks of one kernel that use the same index name (each block is a scope of its own on the CPU targets)
+        ("t_same_index", [("block", "ii", "n", [("line", 0, None)]), ("line", 0, None), ("block", "ii", "n", [("line", 1, None), ("line", 2, G)])]),
     ]
 
 
@@ -110,6 +114,14 @@ class Untranslatable(Exception):
     pass
 
 
+def asint(x):
+    return z3.If(x, z3.IntVal(1), z3.IntVal(0)) if z3.is_bool(x) else x
+
+
+def asbool(x):
+    return x if z3.is_bool(x) else x != 0
+
+
 def ex(e, env):
     """C expression -> z3 term"""
     if isinstance(e, c_ast.Constant):
@@ -125,8 +137,12 @@ def ex(e, env):
         return ex(e.expr, env)
     if isinstance(e, c_ast.UnaryOp) and e.op == "-":
         return -ex(e.expr, env)
+    if isinstance(e, c_ast.TernaryOp):
+        return z3.If(asbool(ex(e.cond, env)), asint(ex(e.iftrue, env)), asint(ex(e.iffalse, env)))
     if isinstance(e, c_ast.BinaryOp):
         a, b = ex(e.left, env), ex(e.right, env)
+        # C: the result of a comparison is an int (0/1), the operands of && and || are tested against 0
+        a, b = (asbool(a), asbool(b)) if e.op in ("&&", "||") else (asint(a), asint(b))
         ops = {"+": lambda: a + b, "-": lambda: a - b, "*": lambda: a * b, "<": lambda: a < b, "<=": lambda: a <= b, ">": lambda: a > b, ">=": lambda: a >= b, "==": lambda: a == b, "!=": lambda: a != b, "&&": lambda: z3.And(a, b), "||": lambda: z3.Or(a, b), "/": lambda: a / b, "%": lambda: a % b}
         if e.op in ops:
             return ops[e.op]()
@@ -182,10 +198,35 @@ def analyse_kernel(fdef, tgt):
             var = d.name
             b = dict(var=var, kind="for", env=env)
             b["init"] = ex(d.init, env)
-            b["cond"] = ex(it.cond, env)
+            b["cond"] = asbool(ex(it.cond, env))
             nx = it.next
             b["step_ok"] = isinstance(nx, c_ast.UnaryOp) and nx.op in ("p++", "++") and isinstance(nx.expr, c_ast.ID) and nx.expr.name == var
             mk_ = markers_of([it.stmt])
+            b["ym"] = mk_.y
+            b["zm_inside"] = mk_.z
+            b["var_modified"] = var in mk_.assigned
+            blocks.append(b)
+            k += 1
+            continue
+        sub = list(it.block_items or []) if isinstance(it, c_ast.Compound) else []
+        if not tgt.startswith("cpu") and len(sub) >= 2 and isinstance(sub[0], c_ast.Decl) and sub[0].init is None and isinstance(sub[1], c_ast.Assignment) and isinstance(sub[1].lvalue, c_ast.ID) and sub[1].lvalue.name == sub[0].name:
+            # the block is a scope of its own: { int v; v = ...; [if (guard) {] body [}] }
+            var = sub[0].name
+            b = dict(var=var, env=env)
+            b["vexpr"] = ex(sub[1].rvalue, env)
+            if tgt == "cuda":
+                b["kind"] = "cuda"
+                nxt = sub[2] if len(sub) > 2 else None
+                if isinstance(nxt, c_ast.If) and nxt.iffalse is None and len(sub) == 3:
+                    b["guard"] = asbool(ex(nxt.cond, env))
+                    body = [nxt.iftrue]
+                else:
+                    b["guard"] = z3.BoolVal(True)
+                    body = sub[2:]
+            else:
+                b["kind"] = "opencl"
+                body = sub[2:]
+            mk_ = markers_of(body)
             b["ym"] = mk_.y
             b["zm_inside"] = mk_.z
             b["var_modified"] = var in mk_.assigned
@@ -201,7 +242,7 @@ def analyse_kernel(fdef, tgt):
                 b["kind"] = "cuda"
                 nxt = items[k + 2] if k + 2 < len(items) else None
                 if isinstance(nxt, c_ast.If) and nxt.iffalse is None:
-                    b["guard"] = ex(nxt.cond, env)
+                    b["guard"] = asbool(ex(nxt.cond, env))
                     body = [nxt.iftrue]
                     k += 3
                 else:
@@ -225,6 +266,11 @@ def analyse_kernel(fdef, tgt):
             continue
         outside += markers_of([it]).z
         k += 1
+    # a name declared twice in one scope does not compile: the declarations at the top level of the kernel body
+    top = [x.name for x in items if isinstance(x, c_ast.Decl)]
+    dups = sorted({x for x in top if top.count(x) > 1})
+    for b in blocks:
+        b["dups"] = dups
     return blocks, outside
 
 
@@ -274,7 +320,9 @@ def lim_term(text, env):
 
 
 def lim_value(text, n):
-    return int(eval(text.replace("/", "//"), {"n": n}))
+    env = {}
+    t = lim_term(text, env)
+    return z3.simplify(z3.substitute(asint(t), (env.setdefault("n", z3.Int("n")), z3.IntVal(n)))).as_long()
 
 
 # --------------------------------------------------------------------------
@@ -423,6 +471,8 @@ def harness(job):
                         lim_bind.append(var == n.e)
                 bind = z3.And(lim_bind) if lim_bind else z3.BoolVal(True)
                 tag = f"{tgt} block {bi} ({b['var']})"
+                if bi == 0:
+                    e.prove(z3.BoolVal(not b.get("dups")), f"{tgt}: the expansion declares no name twice in the scope of the kernel body (it compiles): {b.get('dups')}", det)
                 if b["kind"] == "for":
                     vv = env.get(b["var"], z3.Int(b["var"]))
                     cond_v = z3.substitute(b["cond"], (vv, v))
